@@ -19,7 +19,7 @@ META = {
     "equal those of x_k, and GN(L_T(x_k)) = L_T(GN(x_k)); plus, at every state, the same frame change applied IN PLACE to an already evaluated graph (history), plus the direct 5-step comparison on the SLAM families. non-trivial = T is not the identity and the step moves a vertex",
     "assumptions": ["finite transform alphabet", "L_T is computed with the reference geometry", "tolerance 1e-9 x (1 + |T| + |x| + |dx|) x max(1, cond/1e3); states whose reduced Hessian has cond > 1e6 end the trajectory (counted)"],
     "required_classes": ["T:180deg", "T:huge_translation", "T:large_translation", "T:w_negative", "T:near_180", "kind:SE2", "kind:SE3", "kind:R2", "kind:R3", "landmark_offset", "slam_family", "shape_family", "state_depth_5"],
-    "bounds": {"quick": "shape family m<=2 (single vertex order), SLAM families n in {3,6}; 7 transforms; depth 5", "thorough": "SLAM families n in {3,6,12} x 3 noise patterns; shape family m<=2 x 2 vertex orders; depth 5"},
+    "bounds": {"quick": "shape family m<=2 (single vertex order), SLAM families n in {3,6}; 7 transforms; depth 5", "thorough": "SLAM families n in {3,6,12,24} x 3 noise patterns; shape family m<=2 x 2 vertex orders; depth 5"},
 }
 
 
@@ -94,7 +94,7 @@ def graphs(tier, seed):
         for ms in F.edge_multisets(len(cands), 2):
             for vo in ([[0, 1, 2]] if tier == "quick" else [[0, 1, 2], [2, 0, 1]]):
                 out.append(("shape", {"types": types, "ms": ms, "vo": vo}))
-    sizes = (3, 6) if tier == "quick" else (3, 6, 12)
+    sizes = (3, 6) if tier == "quick" else (3, 6, 12, 24)
     noises = (("zero", 0.0), ("sin", 0.02)) if tier == "quick" else (("zero", 0.0), ("sin", 0.02), ("alt", 0.02))
     for kind in ("SE2", "SE3"):
         for fam in SF.FAMILIES[kind]:
